@@ -6,18 +6,22 @@ import HeimdallModel.Spec.ConfigLeaf
 
 * op `load`: `res` = the list of distinct results of `Config.load defaults file env` over the given enumeration orders
   of the environment (one element by theorem `c20_perm`), `"panic"` where the Go code refuses to merge (kind clash);
-* op `spec`: `res` = does the leaf-wise rule accept the given result (`Config.specAccepts`), with the offending leaf;
+* op `spec`: `res` = does the leaf-wise rule accept the given result (`Config.specAccepts`), with the offending leaves
+  and the places of the variables that give a nil value to a list position (known finding C20-nil-list-element);
+* op `leafload`: the loader model followed by the decoding model, what arrives at one typed leaf;
 * op `names`: `res` = the path each variable name addresses and the name the documented rule gives that path back.
 -/
 open Lean Heimdall.Config
 
 namespace Driver.Config
 
-/-- scalars travel as JSON scalars; the atom is their compressed JSON text -/
+/-- scalars travel as JSON scalars; the atom is their compressed JSON text. `null` under a map key is the value that
+    is defined to be nil (`Val.nil`, Go's map entry `k: nil`), `null` in a list is an unfilled position (`Val.null`:
+    Go's `mergeSlices` treats every nil entry so) -/
 partial def ofJson : Json → Val
   | .null => .null
   | .arr xs => .seq (xs.foldr (fun x acc => .cons (ofJson x) acc) .nil)
-  | .obj kvs => .map (kvs.foldl (fun acc k v => acc.set k.toList (ofJson v)) .nil)
+  | .obj kvs => .map (kvs.foldl (fun acc k v => acc.set k.toList (match v with | .null => Val.nil | _ => ofJson v)) .nil)
   | j => .atom j.compress
 
 mutual
@@ -69,13 +73,39 @@ def scalarOf : Json → Driver.E Scalar
   | .num n => if n.exponent == 0 then pure (.int n.mantissa) else throw "non-integer number: give floats as {\"$float\": text}"
   | j => match j.getObjVal? "$float" with
     | .ok (.str r) => pure (.float r.toList)
-    | _ => throw "unsupported scalar"
+    | _ => match j.getObjVal? "$collection" with
+      | .ok _ => pure .coll
+      | _ => throw "unsupported scalar"
+
+def scalarToJson : Scalar → Json
+  | .str s => Json.str (String.ofList s)
+  | .int n => Driver.jint n
+  | .bool b => Json.bool b
+  | .float r => Json.mkObj [("$float", Json.str (String.ofList r))]
+  | .null => Json.null
+  | .coll => Json.mkObj [("$collection", Json.bool true)]
+
+/-- the scalar the merged tree hands to the decoder at a leaf -/
+def scalarAt (v : Val) : Driver.E Scalar :=
+  match v with
+  | .null => pure .null
+  | .atom a => match Json.parse a with
+      | .ok j => scalarOf j
+      | .error e => throw s!"atom is not JSON: {e}"
+  | _ => pure .coll
+
+def pathOfJson (j : Json) : Driver.E Path := do
+  let segs ← j.getArr?
+  segs.toList.mapM fun s => match s with
+    | .str k => pure (Seg.key k.toList)
+    | other => do pure (Seg.idx (← other.getNat?))
 
 def leafTypeOf : String → Driver.E LeafType
   | "string" => pure .string
   | "int" => pure .int
   | "bool" => pure .bool
   | "text" => pure .text
+  | "any" => pure .any
   | t => throw s!"unknown leaf type {t}"
 
 def leafToJson : Leaf → Json
@@ -86,6 +116,7 @@ def leafToJson : Leaf → Json
   | .zero => Json.str "zero"
   | .fail => Json.str "err:decode"
   | .unsupported => Json.str "unsupported"
+  | .raw y => Json.mkObj [("raw", scalarToJson y)]
 
 /-- op `leaf`: `res` = what the typed decoding makes of the scalar for a leaf of the given type; `stats.faithful` = is
     the scalar a faithful reading of the plain spelling of `value` (the spec demands the file's leaf then) -/
@@ -134,6 +165,9 @@ def run (c : Json) : Driver.E Json := do
       ("env", Driver.jnat env.length),
       ("env_list_leaves", Driver.jnat (countIdx envLeaves)),
       ("env_overrides", Driver.jnat overridden),
+      ("env_nil", Driver.jnat (env.filter fun e => e.2 == nullText).length),
+      ("env_nil_overrides", Driver.jnat (env.filter fun e => e.2 == nullText && (merge d f).get (parseName e.1) != .null).length),
+      ("env_holes", Driver.jnat (env.filter fun e => holeVar (parseName e.1) e.2).length),
       ("file_leaves", Driver.jnat f.leaves.length),
       ("default_leaves", Driver.jnat d.leaves.length),
       ("result_leaves", Driver.jnat r.leaves.length),
@@ -143,18 +177,31 @@ def run (c : Json) : Driver.E Json := do
   | "spec" =>
     let r := ofJson (← Driver.fld c "result")
     let bad :=
-      (env.filter fun e => r.get (parseName e.1) != .atom e.2).map (fun e => pathToJson (parseName e.1))
-      ++ (f.leaves.filter fun l => !(env.touches l.1 || r.get l.1 == .atom l.2)).map (fun l => pathToJson l.1)
-      ++ (d.leaves.filter fun l => !(env.touches l.1 || f.get l.1 != .null || r.get l.1 == .atom l.2)).map
+      (env.filter fun e => !showsLeaf (r.get (parseName e.1)) e.2).map (fun e => pathToJson (parseName e.1))
+      ++ (f.leaves.filter fun l => !(env.touches l.1 || showsLeaf (r.get l.1) l.2)).map (fun l => pathToJson l.1)
+      ++ (d.leaves.filter fun l => !(env.touches l.1 || f.get l.1 != .null || showsLeaf (r.get l.1) l.2)).map
           (fun l => pathToJson l.1)
       ++ (r.leaves.filter fun l => !(env.any (fun e => parseName e.1 == l.1 && e.2 == l.2)
             || f.get l.1 == .atom l.2 || d.get l.1 == .atom l.2)).map (fun l => pathToJson l.1)
-    pure (Json.mkObj [("res", Json.bool (specAccepts d f env r)), ("stats", Json.mkObj [("bad", Driver.jarr bad)])])
+    let holes := (env.filter fun e => holeVar (parseName e.1) e.2).map (fun e => pathToJson (parseName e.1))
+    pure (Json.mkObj [("res", Json.bool (specAccepts d f env r)),
+      ("stats", Json.mkObj [("bad", Driver.jarr bad), ("holes", Driver.jarr holes)])])
   | "names" =>
     let out := env.map fun e =>
       let p := parseName e.1
       Json.mkObj [("path", pathToJson p), ("name", Json.str (String.ofList (envName p))), ("ok", Json.bool (pathOk p))]
     pure (Driver.jarr out)
+  | "leafload" =>
+    -- the loader model followed by the decoding model: what arrives at one typed leaf (`"zero"`: the target keeps
+    -- what it held, i.e. the default of the property)
+    let t ← leafTypeOf (← Driver.str c "type")
+    let p ← pathOfJson (← Driver.fld c "path")
+    let r := load d f env
+    let y ← scalarAt (r.get p)
+    let ok := env.consistent && d.compatB f && (merge d f).compatB (envTree env.entries) && f.nodup && d.nodup
+    let holes := (env.filter fun e => holeVar (parseName e.1) e.2).length
+    pure (Json.mkObj [("res", if ok then leafToJson (decode t y) else Json.str "panic"),
+      ("stats", Json.mkObj [("ok", Json.bool ok), ("scalar", scalarToJson y), ("holes", Driver.jnat holes)])])
   | "merged" =>
     pure (Json.mkObj [("res", toJson (load d f env)),
       ("stats", Json.mkObj [("ok", Json.bool (env.consistent && d.compatB f && (merge d f).compatB (envTree env.entries)))])])
